@@ -104,6 +104,14 @@ def component_map(fn_node):
     for i, j in ((0, 1), (0, 2), (1, 2)):
         if disp[i][j] != disp[j][i]:
             probs.append(f"slots ({AX[i]},{AX[j]}) and ({AX[j]},{AX[i]}) differ: the tensor is not symmetric")
+    # plain renamings `i_xy = tmp` (once-assigned locals, e.g. the elements of an unrolled vector): tmp is that component too
+    from .astutil import single_assignments
+    env = single_assignments(fn_node)
+    for _ in range(3):
+        for nm, want in list(mapping.items()):
+            src = env.get(nm)
+            if isinstance(src, ast.Name) and src.id in env and src.id not in mapping:
+                mapping[src.id] = want
     return mapping, probs
 
 
